@@ -26,6 +26,7 @@ type TOOpts struct {
 	Cancel   bool
 	Migrate  bool // after full storage a provider may start a migration
 	Term     bool // the owner may terminate the model at any time after the first completion
+	Super    bool // the first provider is a super node (first pick of every order, round-robin cursor)
 	Depth    int
 	Props    map[string]bool
 }
@@ -36,8 +37,16 @@ func TimeoutScenario(o TOOpts) *engine.Scenario {
 		o.Size = 10000
 	}
 	sc := &engine.Scenario{ID: o.ID, Depth: o.Depth}
+	if o.Super {
+		sc.Cfg = world.Config{TwoValidators: true, VstorageThresh: 1_000_000}
+	}
 	sc.Roots = []engine.Root{{Name: "T0", Setup: func(w *world.World) []engine.SetupStep {
 		st := SetupBase(w, []int{world.O}, []int{world.G}, sps, 10_000_000)
+		if o.Super {
+			v := sdk.ValAddress(w.A(world.V).Addr).String()
+			st = append(st, fixed(Tx("delegate", "delegate(S1,setup)", stakingDelegate(w, world.S1, v, 200_000_000))),
+				fixed(Tx("reset", "reset(S1,super,setup)", &nodetypes.MsgReset{Creator: w.A(world.S1).S(), Status: FullStatus, Validator: v})))
+		}
 		if o.Spare {
 			a := w.A(world.S4)
 			st = append(st, fixed(Tx("create", "create(S4)", &nodetypes.MsgCreate{Creator: a.S()})),
@@ -110,7 +119,7 @@ func TimeoutScenario(o TOOpts) *engine.Scenario {
 }
 
 func toName(o TOOpts) string {
-	return fmt.Sprintf("to-n%d-r%d-t%d-d%d%s%s%s%s%s", o.NSP, o.Replica, o.Timeout, o.Duration, cmpb(o.Spare, "-spare", ""), cmpb(o.Update, "-upd", ""), cmpb(o.Cancel, "-cancel", ""), cmpb(o.Migrate, "-mig", ""), cmpb(o.Term, "-term", ""))
+	return fmt.Sprintf("to-n%d-r%d-t%d-d%d%s%s%s%s%s", o.NSP, o.Replica, o.Timeout, o.Duration, cmpb(o.Spare, "-spare", ""), cmpb(o.Update, "-upd", ""), cmpb(o.Cancel, "-cancel", ""), cmpb(o.Migrate, "-mig", ""), cmpb(o.Term, "-term", "")+cmpb(o.Super, "-super", ""))
 }
 
 // TimeoutFamily returns the fault-sequence scenarios of a tier.
@@ -127,7 +136,9 @@ func TimeoutFamily(id, tier string, p map[string]bool) []*engine.Scenario {
 	add(TOOpts{NSP: 2, Replica: 2, Timeout: 10, Duration: 3600, Spare: true, Depth: 17})
 	add(TOOpts{NSP: 2, Replica: 1, Timeout: 10, Duration: 3600, Update: true, Cancel: true, Depth: 16})
 	add(TOOpts{NSP: 2, Replica: 1, Timeout: 1800, Duration: 3600, Depth: 5})
+	add(TOOpts{NSP: 4, Replica: 2, Timeout: 100, Duration: 3600, Migrate: true, Depth: 8})
 	add(TOOpts{NSP: 3, Replica: 2, Timeout: 1200, Duration: 3600, Migrate: true, Depth: 6})
+	add(TOOpts{NSP: 2, Replica: 2, Timeout: 10, Duration: 3600, Super: true, Depth: 17})
 	if tier == "thorough" {
 		add(TOOpts{NSP: 4, Replica: 2, Timeout: 10, Duration: 3600, Depth: 17})
 		add(TOOpts{NSP: 3, Replica: 2, Timeout: 10, Duration: 3600, Spare: true, Cancel: true, Depth: 17})
